@@ -65,6 +65,9 @@ func newTask(ar *archRun, w *worker, f isaspec.Form) *task {
 	}
 	in.Bytes = f.Bytes
 	e := isaspec.LookupArch(in.Base, ar.arch)
+	if e == nil && strings.HasPrefix(f.Group, "gfx9-encoding:") {
+		e = isaspec.LookupArch(in.Base, isaspec.CDNA3)
+	}
 	if e == nil {
 		run.Infra("no spec entry for %q", f.Text)
 		return nil
